@@ -145,9 +145,16 @@ DirtyNow(s) == {w \in DOMAIN s.w : \E t \in DOMAIN s.w[w].txs :
 \* (the caller skipped tx_lock_outputs after process_invoice_tx, or posts a slate whose reservation
 \* was released): the wallet cannot learn of that spend by refreshing - a scan repairs it.
 \* Judged at the moment of the broadcast only, never on later states.
+\* (reserved FOR THAT transaction: an input that is Locked by another pending transaction of the wallet - the
+\*  invoice was paid from outputs a send had reserved, and tx_lock_outputs was never called for the payment - is
+\*  as little known to the wallet as an unreserved one)
+ReservedFor(s, w, k, sl) ==
+  LET o == s.w[w].outs[k]  t == TxKeyOf(o.acct, o.tx) IN
+  \/ o.st = "Spent"
+  \/ o.st = "Locked" /\ t \in DOMAIN s.w[w].txs /\ s.w[w].txs[t].slate = sl
 UnreservedSpend(s, sl) == {w \in DOMAIN s.w : \E k \in DOMAIN s.w[w].outs :
                             /\ OID(s, w, k) \in s.body[sl].ins
-                            /\ s.w[w].outs[k].st \notin {"Locked", "Spent"}}
+                            /\ ~ReservedFor(s, w, k, sl)}
 PostDirty(s) == IF E.ev = "post" /\ E.res = "ok" /\ E.sl \in DOMAIN s.body THEN UnreservedSpend(s, E.sl) ELSE {}
 Step(hv2) == /\ l' = l + 1 /\ st' = S2 /\ hv' = HvIssued(hv2, S2)
              /\ StateMonitors(E, S2, hv2) /\ NoPanic(E)
